@@ -469,6 +469,20 @@ func execHistory(se *session, w, h int, ops []shadow.Op, eo execOpts) *viol {
 				touch(o.X, o.Y, o.R, o.Comb, o.Sp)
 				m.Set(o.X, o.Y, o.R, o.Comb, o.Sp)
 			}
+		case "restore":
+			if !m.In(o.X, o.Y) || m.IsHidden(o.X, o.Y) {
+				continue
+			}
+			c := m.C[o.Y*m.W+o.X]
+			st := c.St.Style()
+			switch {
+			case o.CS == 0:
+				app(func() { s.SetContent(o.X, o.Y, c.R, append([]rune(nil), c.Comb...), st) })
+			case o.CS == 1:
+				app(func() { s.SetContent(o.X, o.Y, c.R, append([]rune{}, c.Comb...), st) })
+			default:
+				app(func() { s.SetCell(o.X, o.Y, st, append([]rune{c.R}, c.Comb...)...) })
+			}
 		case "fill", "clear":
 			r, sp := o.R, o.Sp
 			if o.K == "clear" {
